@@ -1,7 +1,8 @@
 import PyttbModel.Driver.C17
+import PyttbModel.Driver.C01
 open Lean Pyttb Pyttb.Codec Pyttb.Driver
 
-def allOps : List (String × Op) := ops17
+def allOps : List (String × Op) := ops17 ++ ops07 ++ ops01
 
 def handle (line : String) : String :=
   match Json.parse line with
